@@ -21,7 +21,7 @@ LEVEL_TEXT = (
     "any retention growing with >= 0.5 % of the fed octets crosses the bound. The bound is a generic object-graph measure and does not "
     "name attributes. Sampling of patterns and sizes, not proof."
 )
-RUNS = {"quick": 472, "thorough": 2432}
+RUNS = {"quick": 488, "thorough": 2448}
 CHUNK = {"quick": 2, "thorough": 2}
 BUDGET_S = {"quick": 120, "thorough": 3000}
 SELFTEST_RUNS = 12
@@ -42,7 +42,7 @@ MUST_FIRE = {"quick": ["pattern_all_flags", "pattern_slash_no_lf", "pattern_iden
 P1_TOKENS = [b"/ABC5xyz\r\n", b"/KAM5\r\n", b"\r\n", b"\n", b"1-0:1.8.0(000123.456*kWh)\r\n", b"\xff\xfe\r\n", b"1-0:1.7.0(\x80)\r\n", b"!\r\n", b"!1A2B\r\n", b"!zz\r\n", b"!!\r\n", b"! \r\n",
              b"/", b"/junk", b"x" * 40, b"/ABC5!x\r\n", b"\r", b"(", b"0-0:96.1.1(4B41)\n", b"!", b" \t\r\n", b"\x00\r\n", b"~}\r\n"]
 CONST = 64 * 1024
-HDLC_PATTERNS = ["all_flags", "flag_junk", "valid_frames", "never_ending_frame", "random", "random_ascii", "escape_flood", "flag_escape_alternating", "open_frame_then_flags", "open_frame_then_escapes", "open_frame_then_flag_escape", "valid_frames_single_flag", "invalid_frames_single_flag", "aborted_frames", "junk_frames_varying"]
+HDLC_PATTERNS = ["all_flags", "flag_junk", "valid_frames", "never_ending_frame", "random", "random_ascii", "escape_flood", "flag_escape_alternating", "open_frame_then_flags", "open_frame_then_escapes", "open_frame_then_flag_escape", "valid_frames_single_flag", "invalid_frames_single_flag", "aborted_frames", "junk_frames_varying", "valid_frame_then_ff", "valid_frame_then_noflag_noise"]
 P1_PATTERNS = ["ident_no_end", "slash_no_lf", "ident_endless_lines", "valid_readouts", "random", "random_ascii", "ident_lines_repeated", "ident_endless_blank_lines", "ident_endless_lf", "lf_forever", "cr_forever", "ident_endless_bang_less_text", "ident_then_nonascii_line", "valid_readouts_varying_ident", "ident_lines_varying", "varying_ident_no_end"]
 CHUNKS = [1, 64, 1024, 65536]
 
@@ -121,6 +121,10 @@ def block(sc) -> bytes:
                     continue
             out += (hdlc_ref.stuff(bytes(o)) if stuffing else bytes(o)) + b"\x7e"  # the closing flag is the next opening flag
         return bytes(out)
+    if p == "valid_frame_then_ff":
+        return b"\xff" * 4096
+    if p == "valid_frame_then_noflag_noise":
+        return r.randbytes(8192).replace(b"\x7e", b"\x33").replace(b"\x7d", b"\x34")
     if p == "junk_frames_varying":  # complete (invalid) frames whose octets never repeat
         return b"\x7e\xa0\x10\x03\x21\x13\x12\x34@@@@@@@@\x7e"
     if p == "aborted_frames":
@@ -185,6 +189,9 @@ def prefix(sc) -> bytes:
         return b"\x7e\xa7\xff\x03\x21\x13\x12\x34\x01\x02"
     if sc["pattern"] in ("ident_endless_lines", "ident_endless_blank_lines", "ident_endless_lf", "ident_endless_bang_less_text"):
         return b"/ABC5xyz\r\n"
+    if sc["pattern"].startswith("valid_frame_then"):
+        good = hdlc_gen.build({"t": "frame", "dest": "03", "src": "21", "ctl": 0x13, "fmt": 0xA, "seg": False, "info": "0102030405060708"})
+        return b"\x7e" + (hdlc_ref.stuff(good) if sc["cfg"][0] else good)  # a complete valid frame whose closing flag never arrives
     if sc["pattern"].endswith("frames_single_flag"):
         return b"\x7e"
     if sc["pattern"].startswith("octet_flood:"):
